@@ -126,7 +126,28 @@ def text_of(e):
         return '%s:"%s"' % (e[1], ",".join(parts))
     if k == "tag":
         return "%s:%s" % (e[1], e[2])
+    if k == "sub":
+        return "@%s:%s" % (e[1], text_of(e[2]))
+    if k == "relnum":
+        _, key, name, var, off, mode, off2 = e
+        t1, t2 = rel_term(name, var, off), rel_term(name, var, off2)
+        return "%s:%s" % (key, {"eq": t1, "ge": t1 + ":", "le": ":" + t1, "range": t1 + ":" + t2}[mode])
+    if k == "reltime":
+        _, key, name, var, off, mode, off2 = e
+        t1, t2 = rel_term(name, var, off, "s"), rel_term(name, var, off2, "s")
+        return "%s:%s" % (key, {"eq": t1, "ge": t1 + ":", "le": ":" + t1, "range": t1 + ":" + t2}[mode])
+    if k == "relhost":
+        return "%s:@%s:%s@%s" % (e[1], e[2], e[3], "" if e[4] is None else "/%d" % e[4])
+    if k == "relproto":
+        return "protocol:@%s:protocol@" % e[1]
     raise ValueError(e)
+
+
+def rel_term(name, var, off, unit=""):
+    t = "@%s:%s@" % (name, var)
+    if off:
+        t += ("+%d%s" % (off, unit)) if off > 0 else ("-%d%s" % (-off, unit))
+    return t
 
 
 def text_sub(e):
@@ -159,14 +180,14 @@ def in_range(v, r):
     return (r[0] is None or v >= r[0]) and (r[1] is None or v <= r[1])
 
 
-def eval_expr(e, s, tagtruth):
+def eval_expr(e, s, tagtruth, env=None):
     k = e[0]
     if k == "and":
-        return all(eval_expr(x, s, tagtruth) for x in e[1])
+        return all(eval_expr(x, s, tagtruth, env) for x in e[1])
     if k == "or":
-        return any(eval_expr(x, s, tagtruth) for x in e[1])
+        return any(eval_expr(x, s, tagtruth, env) for x in e[1])
     if k == "not":
-        return not eval_expr(e[1], s, tagtruth)
+        return not eval_expr(e[1], s, tagtruth, env)
     if k == "num":
         fields = {"id": ["id"], "cport": ["cp"], "sport": ["sp"], "port": ["cp", "sp"], "cbytes": ["cb"],
                   "sbytes": ["sb"], "bytes": ["cb", "sb"]}[e[1]]
@@ -191,7 +212,103 @@ def eval_expr(e, s, tagtruth):
         return res
     if k == "tag":
         return tagtruth["%s/%s" % (e[1], e[2])][s["id"]]
+    if k == "sub":      # an atom about the stream of sub-query e[1]
+        return eval_expr(e[2], env[e[1]], tagtruth, env)
+    if k in ("relnum", "reltime"):
+        _, key, name, var, off, mode, off2 = e
+        o = env[name]
+        if k == "relnum":
+            fields = NUMFIELDS[key]
+            base, lo_f, hi_f, unit = o[NUMFIELDS[var][0]], fields, fields, 1
+        else:
+            base, unit = o[{"ftime": "ft", "ltime": "lt"}[var]], SEC
+            lo_f, hi_f = {"ftime": (["ft"], ["ft"]), "ltime": (["lt"], ["lt"]), "time": (["lt"], ["ft"])}[key]
+        lo = base + off * unit if mode in ("eq", "ge", "range") else None
+        hi = base + (off if mode in ("eq", "le") else off2) * unit if mode in ("eq", "le", "range") else None
+        # key with two fields (port, bytes): one of them satisfies both bounds; time: ltime >= lo and ftime <= hi
+        if k == "relnum":
+            return any((lo is None or s[f] >= lo) and (hi is None or s[f] <= hi) for f in fields)
+        return (lo is None or s[lo_f[0]] >= lo) and (hi is None or s[hi_f[0]] <= hi)
+    if k == "relhost":
+        fields = {"chost": ["ch"], "shost": ["sh"], "host": ["ch", "sh"]}[e[1]]
+        other = env[e[2]][{"chost": "ch", "shost": "sh"}[e[3]]]
+        return any(host_match(s[f], other, e[4]) for f in fields)
+    if k == "relproto":
+        return s["proto"] == env[e[1]]["proto"]
     raise ValueError(e)
+
+
+NUMFIELDS = {"id": ["id"], "cport": ["cp"], "sport": ["sp"], "port": ["cp", "sp"], "cbytes": ["cb"], "sbytes": ["sb"],
+             "bytes": ["cb", "sb"]}
+
+
+def sub_names(e, acc=None):
+    acc = [] if acc is None else acc
+    k = e[0]
+    if k in ("and", "or"):
+        for x in e[1]:
+            sub_names(x, acc)
+    elif k == "not":
+        sub_names(e[1], acc)
+    elif k == "sub":
+        if e[1] not in acc:
+            acc.append(e[1])
+        sub_names(e[2], acc)
+    elif k in ("relnum", "reltime", "relhost"):
+        if e[2] not in acc:
+            acc.append(e[2])
+    elif k == "relproto":
+        if e[1] not in acc:
+            acc.append(e[1])
+    return acc
+
+
+def connected(e):
+    """Every sub-query that occurs is connected to the main query by relations (possibly through other
+    sub-queries).  The engine ignores unconnected sub-queries; such queries are an excluded form."""
+    edges, used = set(), set()
+
+    def walk(x, owner):
+        k = x[0]
+        if k in ("and", "or"):
+            for y in x[1]:
+                walk(y, owner)
+        elif k == "not":
+            walk(x[1], owner)
+        elif k == "sub":
+            used.add(x[1])
+            walk(x[2], x[1])
+        elif k in ("relnum", "reltime", "relhost"):
+            used.add(x[2])
+            edges.add((owner, x[2]))
+        elif k == "relproto":
+            used.add(x[1])
+            edges.add((owner, x[1]))
+    walk(e, "")
+    reach, todo = {""}, [""]
+    while todo:
+        n = todo.pop()
+        for a, b in edges:
+            for u, v in ((a, b), (b, a)):
+                if u == n and v not in reach:
+                    reach.add(v)
+                    todo.append(v)
+    return used <= reach
+
+
+def eval_query(e, s, tagtruth, vis):
+    """Meaning of a query with sub-queries: the stream matches iff streams for the sub-queries exist (among the
+    visible ones) that make the formula true."""
+    names = sub_names(e)
+    if not names:
+        return eval_expr(e, s, tagtruth)
+    vs = list(vis.values())
+
+    def go(i, env):
+        if i == len(names):
+            return eval_expr(e, s, tagtruth, env)
+        return any(go(i + 1, dict(env, **{names[i]: o})) for o in vs)
+    return go(0, {})
 
 
 def gen_range(rng, pool, single_p=0.5):
@@ -288,6 +405,14 @@ def dnf_cost(e, tagexprs):
         return 3 * len(e[1]), 3
     if k == "time":
         return len(e[2]), 2
+    if k == "sub":
+        return dnf_cost(e[2], tagexprs)
+    if k in ("relnum", "reltime"):
+        return (2 if e[1] in ("port", "bytes") else 1), 2
+    if k == "relhost":
+        return (2 if e[1] == "host" else 1), 1
+    if k == "relproto":
+        return 3, 3
     if k == "tag":
         n, w = dnf_cost(tagexprs["%s/%s" % (e[1], e[2])], tagexprs)
         n2, w2 = dnf_cost(("not", tagexprs["%s/%s" % (e[1], e[2])]), tagexprs)
@@ -359,10 +484,67 @@ def finish_tags(pop):
     return truth
 
 
+def gen_rel(rng, name):
+    """A relation between the stream under consideration and the stream of sub-query [name]."""
+    r = rng.random()
+    if r < 0.5:
+        key = rng.choice(["id", "cport", "sport", "cbytes", "sbytes", "port", "bytes"])
+        var = rng.choice({"id": ["id"], "cport": ["cport", "cport", "sport"], "sport": ["sport", "sport", "cport"],
+                          "port": ["cport", "sport"], "cbytes": ["cbytes", "sbytes"], "sbytes": ["sbytes", "cbytes"],
+                          "bytes": ["cbytes", "sbytes"]}[key])
+        off = rng.choice([0, 0, 0, 1, -1, 2, 5, 920, -920])
+        mode = rng.choice(["eq", "eq", "ge", "le", "range"])
+        return ("relnum", key, name, var, off, mode, off + rng.choice([0, 1, 3, 10]))
+    if r < 0.7:
+        key = rng.choice(["ftime", "ltime", "time"])
+        var = rng.choice(["ftime", "ltime"])
+        off = rng.choice([0, 0, 0, 1, -1, 60, -60, 600])
+        mode = rng.choice(["eq", "ge", "le", "range"])
+        return ("reltime", key, name, var, off, mode, off + rng.choice([0, 1, 60, 600]))
+    if r < 0.9:
+        return ("relhost", rng.choice(["chost", "shost", "host"]), name, rng.choice(["chost", "shost"]),
+                rng.choice([None, None, None, 0, 8, 24, 32, -8]))
+    return ("relproto", name)
+
+
+def gen_sub_expr(rng, ids, tagnames, tagexprs):
+    """Queries with sub-queries in the forms the engine evaluates: sub-queries that form a chain
+    (main -> a, or main -> a -> b); relations through variables; conditions on the sub-query streams."""
+    for _ in range(200):
+        a_atoms = [("sub", "a", gen_atom(rng, ids, [])) for _ in range(rng.choice([0, 1, 1, 2]))]
+        a_atoms = [("not", x) if rng.random() < 0.15 else x for x in a_atoms]
+        rels = [gen_rel(rng, "a") for _ in range(rng.choice([1, 1, 2]))]
+        rels = [("not", x) if rng.random() < 0.2 else x for x in rels]
+        mains = [gen_atom(rng, ids, tagnames) for _ in range(rng.choice([0, 0, 1]))]
+        parts = mains + rels + a_atoms
+        r2 = rng.random()
+        if r2 < 0.2:     # chain: a is related to b
+            parts.append(("sub", "a", gen_rel(rng, "b")))
+            parts += [("sub", "b", gen_atom(rng, ids, [])) for _ in range(rng.choice([0, 1]))]
+        elif r2 < 0.4:   # two sub-queries next to each other, both related to the main query
+            parts.append(("not", gen_rel(rng, "b")) if rng.random() < 0.15 else gen_rel(rng, "b"))
+            parts += [("sub", "b", gen_atom(rng, ids, [])) for _ in range(rng.choice([0, 1, 1]))]
+        rng.shuffle(parts)
+        e = ("and", parts, False) if len(parts) > 1 else parts[0]
+        r = rng.random()
+        if r < 0.25:
+            e = ("or", [e, gen_expr(rng, ids, tagnames, 1)])
+        elif r < 0.35:
+            e = ("not", e)
+        elif r < 0.45:
+            e = ("and", [("or", [rels[0], gen_atom(rng, ids, tagnames)])] + a_atoms + mains, False)
+        if cheap(e, tagexprs) and connected(e):
+            return e
+    return ("relnum", "cport", "a", "cport", 0, "eq", 0)
+
+
 def gen_search(rng, pop, tagnames, tagexprs):
     vis = visible_of(pop)
     ids = sorted(vis)
-    e = gen_cheap_expr(rng, ids, tagnames, rng.choice([0, 1, 1, 2, 2, 3]), tagexprs)
+    if len(ids) <= 14 and rng.random() < 0.25:
+        e = gen_sub_expr(rng, ids, tagnames, tagexprs)
+    else:
+        e = gen_cheap_expr(rng, ids, tagnames, rng.choice([0, 1, 1, 2, 2, 3]), tagexprs)
     nkeys = rng.choice([0, 1, 1, 2, 2, 3])
     sort = [[rng.choice(SORTKEYS), rng.choice([0, 1])] for _ in range(nkeys)]
     limit = rng.choice(LIMITS)
@@ -373,6 +555,19 @@ def gen_search(rng, pop, tagnames, tagexprs):
     idr = None
     if rng.random() < 0.25:
         idr = sorted(set(rng.sample(ids, rng.randrange(0, len(ids) + 1))) | ({999} if rng.random() < 0.3 else set()))
+    if rng.random() < 0.12 and len(ids) >= 3:
+        # id restriction together with the sorted scan (single key with a stored order, small limit: early exit)
+        # and, when there are tags, a tag condition (tags are partly undecided)
+        sort = [[rng.choice(["id", "ftime", "ltime"]), rng.choice([0, 1])]]
+        limit = rng.choice([1, 2, 2, 5])
+        skip = rng.choice([0, 0, 1, limit])
+        idr = sorted(rng.sample(ids, rng.randrange(1, len(ids) + 1)))
+        if tagnames and not sub_names(e):
+            t = ("tag",) + tuple(rng.choice(tagnames).split("/"))
+            t = ("not", t) if rng.random() < 0.25 else t
+            e2 = ("and", [t, e], False) if rng.random() < 0.6 else ("or", [t, e])
+            if cheap(e2, tagexprs):
+                e = e2
     return {"expr": e, "q": text_of(e), "sort": sort, "limit": limit, "skip": skip, "ids": idr}
 
 
@@ -401,7 +596,7 @@ def spec(pop, truth, sr):
     """-> dict(matching ids, expected key sequence of the page, expected length, more)"""
     vis = visible_of(pop)
     sort = sr["sort"] or [["ftime", 1]]
-    match = [s for s in vis.values() if (sr["ids"] is None or s["id"] in sr["ids"]) and eval_expr(sr["expr"], s, truth)]
+    match = [s for s in vis.values() if (sr["ids"] is None or s["id"] in sr["ids"]) and eval_query(sr["expr"], s, truth, vis)]
     full = sorted(match, key=functools.cmp_to_key(compare(sort)))
     limit, skip = sr["limit"], sr["skip"]
     page = full[skip:] if limit == 0 else full[skip:skip + limit]
@@ -460,11 +655,15 @@ def strip_search(sr):
     return {"q": sr["q"], "sort": sr["sort"], "limit": sr["limit"], "skip": sr["skip"], "ids": sr["ids"]}
 
 
-def execute(pops, exe, tag, want_model=True):
+SEL_OUT = {}
+
+
+def execute(pops, exe, tag, want_model=True, sel=None):
     d = os.path.join(BUILD, "run", "c02", str(os.getpid()))  # per process: concurrent checks must not share files
     os.makedirs(d, exist_ok=True)
     cf = os.path.join(d, "cases_%s.json" % tag)
-    json.dump({"base": BASE, "pops": [dict(p, searches=[strip_search(s) for s in p["searches"]]) for p in pops]}, open(cf, "w"))
+    json.dump({"base": BASE, "sel": sel or [],
+               "pops": [dict(p, searches=[strip_search(s) for s in p["searches"]]) for p in pops]}, open(cf, "w"))
     iout, mi, mout = (os.path.join(d, "%s_%s.out" % (x, tag)) for x in ("impl", "modelin", "model"))
     for p in (iout, mi, mout):
         if os.path.exists(p):
@@ -476,8 +675,13 @@ def execute(pops, exe, tag, want_model=True):
     rc, out, dt = go_test("./internal/index/", ov, "^TestVerifC02$", env, timeout=900)
     note = "" if rc == 0 else "go harness rc=%d: %s" % (rc, out[-1500:])
     impl = {}
+    SEL_OUT.clear()
+    SEL_OUT.update({"impl": {}, "model": {}})
     if os.path.exists(iout):
         for line in open(iout):
+            if line.startswith("L "):
+                t = line.split()
+                SEL_OUT["impl"][int(t[1])] = t[2:]
             if line.startswith("R "):
                 t = line.split(None, 3)
                 impl[(int(t[1]), int(t[2]))] = parse_result(line.rstrip("\n"))
@@ -485,15 +689,20 @@ def execute(pops, exe, tag, want_model=True):
                 note += " " + line.strip()
     model = {}
     if want_model and exe and os.path.exists(mi):
+        if sel:
+            open(mi, "a").write(sel_model_text(sel))
         rc2, out2, _ = run([exe, mi, mout], timeout=900)
         if rc2 != 0:
             note += " model driver rc=%d: %s" % (rc2, out2[-500:])
         if os.path.exists(mout):
             for line in open(mout):
                 t = line.split()
+                if t and t[0] == "L":
+                    SEL_OUT["model"][int(t[1])] = t[2:]
                 if t and t[0] == "M":
                     model[(int(t[1]), int(t[2]))] = {"fixed": parse_model(t[3]), "orig": parse_model(t[4]), "hyp": t[5] == "H=1",
-                                                     "sat": [tuple(int(x) for x in p.split(".")) for p in t[6][4:].split(",") if p]}
+                                                     "sat": [tuple(int(x) for x in p.split(".")) for p in t[6][4:].split(",") if p],
+                                                     "subs_ok": len(t) < 8 or t[7] == "S=1"}
     return impl, model, note, dt
 
 
@@ -509,6 +718,41 @@ def model_as_result(pop, m):
         s = pop["files"][fi][si]
         streams.append(dict(s, file=fi, idx=si))
     return {"status": "OK", "more": m["more"], "streams": streams, "raw": ""}
+
+
+# ------------------------------------------------------------------ subQuerySelection.remove sequences
+def gen_sel_case(rng):
+    nsq = rng.choice([1, 1, 2, 2, 3])
+    init = [sorted(rng.sample(range(6), rng.randrange(1, 6))) for _ in range(nsq)]
+    ops = []
+    for _ in range(rng.randrange(1, 5)):
+        sqs = rng.sample(range(nsq), rng.randrange(1, nsq + 1))
+        ops.append({"sqs": sqs, "forb": [sorted(rng.sample(range(7), rng.randrange(0, 6))) for _ in sqs]})
+    return {"init": init, "ops": ops}
+
+
+def sel_oracle(c):
+    """The allowed combinations are a set of tuples; remove takes out the product of the forbidden sets."""
+    import itertools
+    combos = set(itertools.product(*c["init"]))
+    out = []
+    for op in c["ops"]:
+        combos = {t for t in combos if not all(t[sq] in f for sq, f in zip(op["sqs"], op["forb"]))}
+        out.append("%d:%s" % (0 if combos else 1, ",".join(sorted("".join(".%d" % x for x in t) for t in combos))))
+    return out
+
+
+def sel_model_text(cases):
+    lines = []
+    for ci, c in enumerate(cases):
+        lines.append("SEL %d %d %d" % (ci, len(c["init"]), len(c["ops"])))
+        for st in c["init"]:
+            lines.append("init " + " ".join(map(str, st)))
+        for op in c["ops"]:
+            lines.append("op " + " ".join(map(str, op["sqs"])))
+            for f in op["forb"]:
+                lines.append("f " + " ".join(map(str, f)))
+    return "\n".join(lines) + ("\n" if lines else "")
 
 
 # ------------------------------------------------------------------ special cases, findings
@@ -528,7 +772,43 @@ def tagdelay_case():
     return pop
 
 
+def subtag_case():
+    """Known finding subquery-tag-inline.  A tag condition on a SUB-query stream (`@a:tag:x`) whose tag has
+    undecided streams is inlined like any other; the inlined definition keeps the sub-query name of the
+    definition (the main query) instead of `a` (conditions.go: "TODO: rename subqueries in tagConditionsSet"),
+    so the definition is tested on the main stream."""
+    def S(i, **kw):
+        d = {"id": i, "ch": HOSTS4[0], "sh": HOSTS4[1], "cp": 1000, "sp": 80, "cb": 1, "sb": 1, "ft": 0, "lt": SEC, "proto": "tcp"}
+        d.update(kw)
+        return d
+    te = ("num", "sport", [(443,)])
+    e = ("and", [("relnum", "cport", "a", "cport", 0, "eq", 0), ("sub", "a", ("tag", "tag", "a"))], False)
+    pop = {"name": "subtag", "files": [[S(0), S(1, cp=1001, sp=443), S(2, cp=1001)]],
+           "tags": [{"name": "tag/a", "def": text_of(te), "expr": te, "state": {"0": 1, "1": 1, "2": 1}}],
+           "searches": [{"expr": e, "q": text_of(e), "sort": [["id", 0]], "limit": 100, "skip": 0, "ids": None}]}
+    finish_tags(pop)
+    return pop
+
+
+def has_sub_tag(e, pop):
+    k = e[0]
+    if k in ("and", "or"):
+        return any(has_sub_tag(x, pop) for x in e[1])
+    if k == "not":
+        return has_sub_tag(e[1], pop)
+    if k == "sub":
+        x = e[2]
+        while x[0] == "not":
+            x = x[1]
+        if x[0] == "tag":
+            return any(t["name"] == "%s/%s" % (x[1], x[2]) and t["uncertain"] for t in pop["tags"])
+        return has_sub_tag(x, pop)
+    return False
+
+
 def classify(pop, sr, kind):
+    if kind in ("length", "nomatch", "order", "more") and has_sub_tag(sr["expr"], pop):
+        return "subquery-tag-inline"
     """Slug of the known finding a failure belongs to, or None.  Matches the specific input, not the property."""
     if pop.get("tagdelay_ms") and kind in ("length", "nomatch", "order") and any(
             t["expr"][0] == "time" and any(v for v in t["state"].values()) for t in pop["tags"]):
@@ -598,7 +878,7 @@ def minimise(pop, sr, kind, budget=120):
             cands.append(dict(sr, expr=x, q=text_of(x)))
         texprs = {t["name"]: t["expr"] for t in pop["tags"]}
         for c in cands:
-            if cheap(c["expr"], texprs) and fails(pop, c):
+            if cheap(c["expr"], texprs) and connected(c["expr"]) and fails(pop, c):
                 sr, changed = c, True
                 break
     used = set()
@@ -641,6 +921,8 @@ def public(pop):
 
 def load_case(path):
     obj = json.load(open(path))
+    if "sel" in obj:
+        return {"name": "sel", "files": [], "tags": [], "searches": [], "_truth": {}}
     pop = obj["pop"]
     finish_tags(pop)
     return pop
@@ -648,6 +930,10 @@ def load_case(path):
 
 def same_obs(res, m):
     return res["status"] == "OK" and [(s["file"], s["idx"]) for s in res["streams"]] == [tuple(x) for x in m["pos"]] and res["more"] == m["more"]
+
+
+def setup():
+    return build_model(PROP, "ExtractC02.v", os.path.join(ROOT, "ocaml/c02"), ["theories/Search.v"])[0]
 
 
 def main(tier, seed, replay=None):
@@ -670,6 +956,7 @@ def main(tier, seed, replay=None):
                 if fn.endswith(".json"):
                     pops.append(load_case(os.path.join(cdir, fn)))
         pops.append(tagdelay_case())
+        pops.append(subtag_case())
         ncorpus = len(pops)
     # thorough: 8 batches of 2400 populations (keeps memory flat); quick: one batch of 60
     nbatches, per_batch = (1, 60) if tier == "quick" else (8, 2400)
@@ -677,7 +964,7 @@ def main(tier, seed, replay=None):
     known_ids = {k.get("id") for k in known}
     nviol, nknown, stats = 0, 0, {"searches": 0, "nonempty": 0, "paged": 0, "more": 0, "tie_drift": 0, "model_compared": 0,
                                   "orig_model_differs": 0, "kinds": {}}
-    failures, model_bad, seen_known = [], [], set()
+    failures, model_bad, seen_known, sel_bad = [], [], set(), []
     distinct = set()
     dist = {"files": {}, "limit": {}, "nkeys": {}, "tags": {}, "idrestricted": 0, "shadowed_pops": 0}
     note, go_s, npops, last = build_note, 0.0, 0, None
@@ -685,8 +972,21 @@ def main(tier, seed, replay=None):
     for batch in range(1 if replay else nbatches):
         if not replay:
             pops = (pops if batch == 0 else []) + gen_cases(rng, per_batch, 35)
-        impl, model, bnote, bgo = execute(pops, exe, "main")
+        sel = [] if replay else [gen_sel_case(rng) for _ in range(300 if tier == "quick" else 3000)]
+        if replay and "sel" in json.load(open(replay)):
+            sel, pops = [json.load(open(replay))["sel"]], []
+        impl, model, bnote, bgo = execute(pops, exe, "main", sel=sel)
         note, go_s, npops = (note + " " + bnote).strip(), go_s + bgo, npops + len(pops)
+        for ci, c in enumerate(sel):
+            stats["sel_cases"] = stats.get("sel_cases", 0) + 1
+            want = sel_oracle(c)
+            got_i, got_m = SEL_OUT["impl"].get(ci), SEL_OUT["model"].get(ci)
+            if replay:
+                print("selection case:", c, "\nspec :", want, "\nimpl :", got_i, "\nmodel:", got_m)
+            if got_i != want and len(sel_bad) < 3:
+                sel_bad.append(("impl", c, want, got_i, got_m))
+            elif exe and got_m != want and len(sel_bad) < 3:
+                sel_bad.append(("model", c, want, got_i, got_m))
         for pi, pop in enumerate(pops):
             dist["files"][len(pop["files"])] = dist["files"].get(len(pop["files"]), 0) + 1
             dist["tags"][len(pop["tags"])] = dist["tags"].get(len(pop["tags"]), 0) + 1
@@ -704,6 +1004,14 @@ def main(tier, seed, replay=None):
                 if sp["n"]:
                     stats["nonempty"] += 1
                     distinct.add(hash((batch, pi, sr["q"], repr(sr["sort"]), sr["limit"], sr["skip"], repr(sr["ids"]))))
+                nsub = len(sub_names(sr["expr"]))
+                if nsub:
+                    stats["subquery_searches"] = stats.get("subquery_searches", 0) + 1
+                    stats["two_subqueries"] = stats.get("two_subqueries", 0) + (nsub > 1)
+                if sr["ids"] is not None and sr["limit"] and len(sr["sort"]) <= 1 and (not sr["sort"] or sr["sort"][0][0] in ("id", "ftime", "ltime")):
+                    stats["idrestricted_sorted_scan"] = stats.get("idrestricted_sorted_scan", 0) + 1
+                    if pop["tags"] and any(t["uncertain"] for t in pop["tags"]):
+                        stats["idrestricted_sorted_scan_undecided_tags"] = stats.get("idrestricted_sorted_scan_undecided_tags", 0) + 1
                 stats["paged"] += sr["skip"] > 0
                 stats["more"] += sp["more"]
                 m = model.get((pi, si))
@@ -725,9 +1033,11 @@ def main(tier, seed, replay=None):
                     vis = visible_of(pop)
                     sat = set(m["sat"])
                     want = {(s["file"], pop["files"][s["file"]].index({k: v for k, v in s.items() if k != "file"}))
-                            for s in vis.values() if eval_expr(sr["expr"], s, pop["_truth"])}
+                            for s in vis.values() if eval_query(sr["expr"], s, pop["_truth"], vis)}
                     got = {(fi, sj) for fi, sj in sat if vis[pop["files"][fi][sj]["id"]]["file"] == fi}
-                    if not m["hyp"]:
+                    if not m.get("subs_ok", True):
+                        mwhy = ("subquery", "the model's unsorted search of a sub-query differs from the code's sub-query result list or from its matchingQueryPart bitmaps")
+                    elif not m["hyp"]:
                         mwhy = ("hypothesis", "a lookup misses a stream index that the filters of the same part accept, or a sorted section of an index file is not a permutation ordered by its key")
                     elif want != got:
                         mwhy = ("hypothesis", "compiled parts accept %s on the visible streams, the query denotes %s" % (sorted(got), sorted(want)))
@@ -741,7 +1051,7 @@ def main(tier, seed, replay=None):
                 elif exe and res["status"] == "OK":
                     if len(model_bad) < 10:
                         model_bad.append((pop, sr, ("missing", "the model driver printed nothing for this search"), None, res))
-        if failures or model_bad or note:
+        if failures or model_bad or note or sel_bad:
             break
     if replay:
         pop, sr = pops[0], pops[0]["searches"][0]
@@ -774,6 +1084,16 @@ def main(tier, seed, replay=None):
             obj["explained_by"] = "identical to the faithful model of the unpatched searchStreams (fall-through after the sorted full scan / early exit with secondary sort keys): fixes/C02-*.patch not applied to this tree"
         violation(PROP, obj)
         nviol += 1
+    for who, c, want, got_i, got_m in sel_bad[:1]:
+        obj = {"property": PROP, "kind": "subquery-selection", "sel": c, "spec": want, "impl": got_i, "model": got_m,
+               "why": "subQuerySelection.remove: the combinations of sub-query results still allowed differ from 'all minus the forbidden product'",
+               "replay_cmd": "bin/check C02 --replay <this file>"}
+        if who == "impl":
+            violation(PROP, obj)
+        else:
+            obj["broken"] = "correspondence: the extracted sel_remove (theories/Search.v) disagrees with the set oracle although the implementation agrees"
+            violation(PROP, obj, no_input=True)
+        nviol += 1
     if "tag-inline-reftime" in known_ids and "tag-inline-reftime" not in seen_known and not replay:
         log("note: known finding tag-inline-reftime did not reproduce on this tree (fixed?)")
     # ---- the model / the proof / the harness
@@ -798,7 +1118,9 @@ def main(tier, seed, replay=None):
             "`matches` is a given predicate: query normalisation (C03) and payload filters (C04) are not modelled here; the model is fed with what the real buildSearchObjects compiled per (file, conjunct): possible / lookups / truth table of the filters",
             "model compares absolute times and host bytes; the code compares file-relative ns inside one file (equal while ReferenceTime + ns does not overflow)",
             "sort.Search, sort.Slice and Go map iteration are modelled (binary search function; lookups as sets), not verified",
-            "grouping, sub-queries, variables and converters are outside the model",
+            "grouping, data variables and converters are outside the model; sub-queries: the selection bookkeeping and the unsorted sub-query search are modelled and proved, "
+            "the per-condition computation of forbidden sets is given (filter truth tables from the real code, evaluated with real search contexts); "
+            "the harness repeats the 25-line sub-query driver loop of SearchStreams to obtain the previous results",
             "the Python oracle (visible newest versions, generator's ground truth for the query, cmp_to_key sort, slice)"],
         "evaluations": stats["searches"],
         "distinct_nontrivial": len(distinct),
@@ -807,7 +1129,11 @@ def main(tier, seed, replay=None):
                 "id/port/bytes/host/protocol/time/tag atoms, lists, ranges, AND/OR/NOT) x 0-3 sort keys x limit in {0,1,2,5,100} x skip x id restriction; "
                 "non-trivial = non-empty expected page, distinct by (population, query, sort, limit, skip, ids); compared: impl = direct oracle "
                 "(key sequence, membership, no duplicates, visible version attributes, length, more flag); extracted model (patched variant) = oracle, "
-                "and id-by-id against the implementation (tie order differences counted as tie_drift, never an alarm)",
+                "and id-by-id against the implementation (tie order differences counted as tie_drift, never an alarm); "
+                "25 % of the searches on small populations use sub-queries (relations through variables in id/port/bytes, time with offsets, "
+                "host with masks, protocol; negated; chains main->a->b and two sub-queries side by side), oracle = streams for the sub-queries exist "
+                "such that the formula holds; the model's unsorted sub-query search is compared with the code's sub-query result lists and "
+                "matchingQueryPart bitmaps; subQuerySelection.remove sequences are compared three ways (code, extracted sel_remove, set oracle)",
         "stats": stats, "generator_distribution": dist, "corpus_cases": ncorpus, "populations": npops, "go_seconds": round(go_s, 1),
         "known_findings_seen": sorted(seen_known), "known_failures": nknown,
         "samples": [{"q": sample.get("q"), "sort": sample.get("sort"), "limit": sample.get("limit"), "skip": sample.get("skip"),
